@@ -305,6 +305,54 @@ pub fn run(ctx: &Ctx) -> Report {
     });
     st = st.merge(st_g);
 
+    // (i) request targets that are not absolute paths x every method (the method has no say in what a path is):
+    //     the asterisk form is a relative path for OPTIONS as for any other method
+    {
+        use crate::e2e::{Case, ProvSpec};
+        use crate::sut::{Cfg, WireReq};
+        use refmodel::sign::{build, Carrier};
+        let methods = ["GET", "HEAD", "POST", "PUT", "DELETE", "OPTIONS", "CONNECT", "TRACE", "PATCH", "PROPFIND", "options"];
+        let targets = ["*", "/", "/a/../b", "/%zz", "/.."];
+        let n_i = (methods.len() * targets.len() * 2 * 2) as u64;
+        let off_i = total_a + n_b + n_f + nh * nh + 2_000_000;
+        let st_i = par_sweep(n_i, |i, st| {
+            let mut x = i as usize;
+            let s3 = x % 2 == 1;
+            x /= 2;
+            let carrier = if x % 2 == 0 { Carrier::Header } else { Carrier::Query };
+            x /= 2;
+            let t = targets[x % targets.len()];
+            x /= targets.len();
+            let m = methods[x];
+            let mut plan = crate::e2e::base_plan(carrier);
+            plan.method = m.to_string();
+            // signed over "/" (what a client that sees no path component would sign) unless the target has a normal form
+            plan.canonical_path = Some(match canon_path(t, s3, false) {
+                Ok(p) => p.path,
+                Err(_) => "/".into(),
+            });
+            plan.wire_path = Some("/".into());
+            let built = build(&plan);
+            let mut w = WireReq::from_wire(&built.wire);
+            w.uri = if let Some(q) = w.uri.strip_prefix('/') { format!("{}{}", t, q) } else { t.to_string() };
+            if t == "*" && w.uri.len() > 1 {
+                return; // the asterisk form admits no query: not representable (query carrier)
+            }
+            let mut cfg = Cfg::basic(crate::e2e::base_instant());
+            cfg.s3 = s3;
+            let case = Case { wire: w, cfg, prov: ProvSpec::standard() };
+            let before = st.violations.len();
+            crate::e2e::judge_into(off_i + i, &case, st);
+            if st.violations.len() > before {
+                if let Some(v) = st.violations.last_mut() {
+                    v.what = format!("method {} target {:?}:{}", m, t, v.what);
+                }
+            }
+            st.nontrivial(&(m, t, s3, carrier, "method-x-target"));
+        });
+        st = st.merge(st_i);
+    }
+
     // (e) end to end: reference-signed requests over the path alphabet are accepted
     let st_e = super::e2e_paths::run(ctx, total_a + n_b + n_f + nh * nh);
     st = st.merge(st_e);
@@ -312,7 +360,7 @@ pub fn run(ctx: &Ctx) -> Report {
     Report {
         stats: st,
         rule: format!(
-            "all paths of 0..={} segments over the {}-symbol alphabet {:?} x trailing slash x {{standard,S3}}; every ASCII byte literal (3 contexts), every 2-byte UTF-8 char literal, every %XX in 4 hex-case spellings, every two-character escape %c1c2 over ASCII^2 (2 contexts), '%' followed by every pair over 10 units incl. 2/3/4-byte characters, 40 special paths; every path of <= {} segments behind a first segment padded to {} lengths (0..5000 bytes, every length 56..70 and 1020..1026) canonicalised in both modes back to back on one thread, in both orders; every ordered pair over 78 (path, mode) symbols of related paths (prefixes / extensions, escape-case and separator variants, 90-byte and 30-segment paths differing only at the end) back to back on one thread; first segments of {} lengths between 10 000 and 200 000 bytes (around 21 845 = 65 535/3, 32 768 and 65 536) made of plain, to-be-escaped and escaped bytes, followed by 10 dot-segment tails; plus end-to-end signing of all <=3-segment paths, each without a body, with a folded form body and with an empty folded form. states = distinct (mode, reference normal form | error class); non-trivial = input differs from its normal form or is refused",
+            "all paths of 0..={} segments over the {}-symbol alphabet {:?} x trailing slash x {{standard,S3}}; every ASCII byte literal (3 contexts), every 2-byte UTF-8 char literal, every %XX in 4 hex-case spellings, every two-character escape %c1c2 over ASCII^2 (2 contexts), '%' followed by every pair over 10 units incl. 2/3/4-byte characters, 40 special paths; every path of <= {} segments behind a first segment padded to {} lengths (0..5000 bytes, every length 56..70 and 1020..1026) canonicalised in both modes back to back on one thread, in both orders; every ordered pair over 78 (path, mode) symbols of related paths (prefixes / extensions, escape-case and separator variants, 90-byte and 30-segment paths differing only at the end) back to back on one thread; first segments of {} lengths between 10 000 and 200 000 bytes (around 21 845 = 65 535/3, 32 768 and 65 536) made of plain, to-be-escaped and escaped bytes, followed by 10 dot-segment tails; 11 methods x 5 request targets ('*', '/', dot segments, bad escape, above root) signed over the reference normal form ('/' where there is none) on both carriers; plus end-to-end signing of all <=3-segment paths, each without a body, with a folded form body and with an empty folded form. states = distinct (mode, reference normal form | error class); non-trivial = input differs from its normal form or is refused",
             max_segs, SEGMENTS.len(), SEGMENTS, short_segs, pad_lens.len(), big_lens.len()
         ),
         bounds: json!({"max_segments": max_segs, "alphabet": SEGMENTS.len(), "modes": 2}),
